@@ -274,17 +274,29 @@ class InvalidCase(RuntimeError):
     """The case is not a well-formed program (only shrinking can produce one)."""
 
 
-def run_impl(steps: list[dict]) -> list:
-    """Execute a protocol program on the real library; one canonical value per step."""
+def run_impl(steps: list[dict], injected: dict | None = None) -> list:
+    """Execute a protocol program on the real library; one canonical value per step.
+
+    `injected` maps step indices to converters (or exceptions) a property's harness produced itself
+    (file and rdflib loaders): the step then just binds / reports that result."""
     import curies
     from curies import Converter
 
     slots: dict[int, Converter] = {}
     attempted: set[int] = set()   # slots some earlier step tried to define (it may have raised)
     out = []
-    for st in steps:
+    for _i, st in enumerate(steps):
         op = st["op"]
-        needed = [st[key] for key in ("c", "src") if key in st] + list(st.get("srcs", []))
+        if injected and _i in injected:
+            attempted.add(st["dst"])
+            r = injected[_i]
+            if isinstance(r, BaseException):
+                out.append(enc_exc(r))
+            else:
+                slots[st["dst"]] = r
+                out.append(None)
+            continue
+        needed = [st[key] for key in ("c", "src") if st.get(key) is not None] + list(st.get("srcs", []))
         if any(i not in slots and i not in attempted for i in needed):
             raise InvalidCase(f"a slot of {needed} is never defined")
         if "dst" in st:
@@ -324,7 +336,20 @@ def run_impl(steps: list[dict]) -> list:
                 slots[st["dst"]] = f(slots[st["src"]], {uncps(k): uncps(v) for k, v in st["mapping"]})
                 out.append(None)
             elif op == "q":
-                out.append(enc_val(impl_query(slots[st["c"]], st)))
+                v = impl_query(slots[st["c"]], st)
+                if st["m"] == "records":
+                    out.append({"r": [enc_record(r) for r in v]})   # also when empty
+                else:
+                    out.append(enc_val(v))
+            elif op == "discover":
+                from curies.discovery import discover
+
+                delims = [uncps(d) for d in st.get("delims", [])]
+                slots[st["dst"]] = discover(
+                    [uncps(u) for u in st["uris"]], delimiters=delims or None, cutoff=st.get("cutoff"),
+                    metaprefix=uncps(st.get("metaprefix", [110, 115])),
+                    converter=None if st.get("src") is None else slots[st["src"]])
+                out.append(None)
             elif op == "fresh":
                 src = slots[st["src"]]
                 extra = [dec_record(r) for r in st.get("extra", [])]
@@ -458,6 +483,10 @@ def show_program(steps) -> list[str]:
         elif op in ("remap_curie", "remap_uri", "rewire"):
             out.append(f"c{st['dst']} = {op}(c{st['src']}, "
                        f"{ {uncps(k): uncps(v) for k, v in st['mapping']} })")
+        elif op == "discover":
+            out.append(f"c{st['dst']} = discover({[uncps(u) for u in st['uris']]}, delimiters={[uncps(d) for d in st.get('delims', [])] or None}, "
+                       f"cutoff={st.get('cutoff')}, metaprefix={uncps(st.get('metaprefix', [110, 115]))!r}, "
+                       f"converter={'None' if st.get('src') is None else 'c%d' % st['src']})")
         elif op == "fresh":
             out.append(f"c{st['dst']} = Converter(copies of c{st['src']}.records + [{'; '.join(show_record(r) for r in st.get('extra', []))}], "
                        f"delimiter=c{st['src']}.delimiter)")
